@@ -137,6 +137,12 @@ func (u *memoryManagementUnit) pushLineToL3(addr comp.AlignedAddress, line []int
 	u.writeToMemory(addr, line)
 }
 
+// flushPendings forgets the line fetches of the execute units that a pipeline
+// flush abandons.
+func (u *memoryManagementUnit) flushPendings() {
+	u.pendings = nil
+}
+
 func (u *memoryManagementUnit) writeToL3(addr int32, data []int8) {
 	u.l3.Write(addr, data)
 }
